@@ -40,7 +40,7 @@ def _site():
     return "harness"
 
 
-FEAS_FALLBACK = None  # (smt solver kind, timeout ms) second opinion for 'unknown' feasibility answers; opt-in per check module
+FEAS_FALLBACK = None  # (smt solver kind, timeout ms): one-shot solver asked BEFORE the incremental one in feasibility queries; opt-in per check module
 _WD = {"thread": None, "deadline": None, "ctx": None, "pid": None}
 _WD_LOCK = None
 
@@ -219,20 +219,23 @@ class PathCtx:
     # ---- decisions -----------------------------------------------------
     def _feasible(self, lit):
         t0 = time.time()
-        r = guarded_check(self.solver, self.feas_timeout_ms, lit)
-        self.stats.feas_queries += 1
-        self.stats.feas_time += time.time() - t0
-        if r == z3.unknown and FEAS_FALLBACK is not None:
-            # opt-in (C06): the incremental solver gives up on non-linear refutations that nlsat does at once;
-            # only an UNSAT answer (from hypotheses no stronger than the path's) is used -> branch pruned
+        r = z3.unknown
+        if FEAS_FALLBACK is not None:
+            # opt-in (C06): the incremental solver gives up on non-linear refutations that nlsat does at once.  The
+            # hypotheses are no stronger than the path's (weak axioms): UNSAT prunes the branch, SAT = explore it
             from . import smt
-            t1 = time.time()
             s2 = smt._mk_solver(FEAS_FALLBACK[0], FEAS_FALLBACK[1])
             for h in list(T.PI_AXIOMS) + self.assumptions + self.axioms_weak + self.pc + [lit]:
                 s2.add(h)
-            if guarded_check(s2, FEAS_FALLBACK[1]) == z3.unsat:
-                r = z3.unsat
-            self.stats.feas_time += time.time() - t1
+            r = guarded_check(s2, FEAS_FALLBACK[1])
+            if r == z3.sat:
+                self.stats.feas_queries += 1
+                self.stats.feas_time += time.time() - t0
+                return True
+        if r == z3.unknown:
+            r = guarded_check(self.solver, self.feas_timeout_ms, lit)
+        self.stats.feas_queries += 1
+        self.stats.feas_time += time.time() - t0
         if r == z3.unknown:
             self.stats.feas_unknown += 1
             return True
